@@ -9,7 +9,9 @@ package main
 // detector in the concurrent phase. Phase hist (c14_hist.go): every program's
 // observation in a process with a history equals its observation alone in a
 // fresh child process. Phase iso (c14_iso.go): module copies and Env.Copy /
-// Env.DeepCopy copies never observe each other's bindings.
+// Env.DeepCopy copies never observe each other's bindings. c14_env.go: programs
+// whose environment the host prepares (type bindings, float32 values, a meeting
+// point for concurrent runs), one tree run in environments of different kinds.
 
 import (
 	"fmt"
@@ -90,6 +92,15 @@ var c14Features = func() []string {
 	if !c14PendingFix_convertMapCollision {
 		f = append(f, c14CollidingMapFeatures...)
 	}
+	// c14_env.go: float32 equality, call nesting, type names bound by the script
+	f = append(f, c14Float32Programs...)
+	f = append(f, c14ErrorThenDeepPrograms...)
+	f = append(f, c14DeepRecursion(2500)[:3]...)
+	f = append(f, c14ErrorExitPrograms[0], c14ErrorExitPrograms[4])
+	f = append(f, c14ScriptTypePrograms()[:6]...)
+	if !c14PendingFix_cancelSelectRace {
+		f = append(f, c14CancelSelectPrograms...)
+	}
 	return f
 }()
 
@@ -117,10 +128,10 @@ func sortStrings(a []string) {
 
 func (o c14Obs) diff(p c14Obs) string {
 	switch {
+	case o.err != p.err:
+		return fmt.Sprintf("error %q vs %q (value %s vs %s)", o.err, p.err, o.value, p.value)
 	case o.value != p.value:
 		return fmt.Sprintf("value %s vs %s", o.value, p.value)
-	case o.err != p.err:
-		return fmt.Sprintf("error %q vs %q", o.err, p.err)
 	case o.trace != p.trace:
 		return fmt.Sprintf("probe trace differs:\n%s\n--- vs ---\n%s", clipStr(o.trace, 600), clipStr(p.trace, 600))
 	case o.gtrace != p.gtrace:
@@ -136,14 +147,38 @@ func clipStr(s string, n int) string {
 	return s
 }
 
+// c14ConcFeatures: the feature programs of phase conc. Programs whose point is what EARLIER
+// runs of the process leave behind (hundreds of error exits, then a deep recursion) stay with
+// the sequential phases; in the race build they cost seconds and add no schedule.
+var c14ConcFeatures = func() []string {
+	skip := map[string]bool{}
+	for _, s := range c14ErrorThenDeepPrograms {
+		skip[s] = true
+	}
+	for _, s := range c14ErrorExitPrograms {
+		skip[s] = true
+	}
+	var f []string
+	for _, s := range c14Features {
+		if !skip[s] {
+			f = append(f, s)
+		}
+	}
+	return f
+}()
+
 var c14DumpOpts = astx.Opts{Pos: true, Caps: true}
 
 // c14Program picks the program of a case; kind tells where it came from.
 func c14Program(c *wk.Case, allowGo bool) (src, kind string, watchdog time.Duration, ok bool) {
 	cor := corpus.Scripts()
+	feats := c14Features
+	if c.Phase == "conc" {
+		feats = c14ConcFeatures
+	}
 	switch r := c.Rng.Intn(10); {
-	case c.Index < len(c14Features):
-		return c14Features[c.Index], "feature", 4 * time.Second, true
+	case c.Index < len(feats):
+		return feats[c.Index], "feature", 4 * time.Second, true
 	case r < 4:
 		g := gen.New(c.Rng, gen.Profile(c.Rng.Intn(3)))
 		return gen.Source(g.Program(30 + c.Rng.Intn(60))), "generated-program", 4 * time.Second, true
@@ -155,7 +190,7 @@ func c14Program(c *wk.Case, allowGo bool) (src, kind string, watchdog time.Durat
 		}
 		return gen.Source(prog), "generated-expressions", 4 * time.Second, true
 	case r < 7:
-		return c14Features[c.Rng.Intn(len(c14Features))], "feature", 4 * time.Second, true
+		return feats[c.Rng.Intn(len(feats))], "feature", 4 * time.Second, true
 	default:
 		s := cor[c.Rng.Intn(len(cor))]
 		// scripts whose outcome legitimately varies or that reach outside the process are not in the domain
@@ -277,19 +312,23 @@ func init() {
 	wk.Register(&wk.Engine{
 		ID: "C14",
 		Plan: func(tier string) fw.Plan {
-			nSeq, nHist, nIso := 3000, 400, 1500
+			nSeq, nHist, nIso := 3100, 500, 1500
 			if tier == "thorough" {
-				nSeq, nHist, nIso = 300000, 20000, 150000
+				nSeq, nHist, nIso = 308000, 25000, 150000
 			}
 			// conc: the shared-tree cases first, then the stamped-environment cases
 			nConc := c14ConcPrograms(tier) + c14ConcPrograms(tier)/6
 			return fw.Plan{
 				Level: "exploration",
-				Rule:  "each program (hand-written feature programs aimed at per-node runtime data: named/anonymous calls, defer, ++/--, small-int and large-int arithmetic, every literal kind, maps that grow while they are ranged over, import with reassignment of imported members, modules, typed literals, make(type); PRNG-generated programs of all profiles; the repository's own goroutine-free scripts) is parsed ONCE; phase seq: the tree is dumped by reflection, run 3 times (feature programs 8 times) in fresh equal environments and dumped after each run; phase conc (race build): a solo run of a separately parsed tree is the reference, then 8 goroutines run the ONE shared tree at the same time on 8 fresh environments behind a barrier. Required: dumps byte-identical, every run's value/error text/probe trace equal to the solo run, canaries on the shared ++ literal, the small-int cache, the package tables and import isolation after each case, no race report. Non-trivial = parsed and produced at least one probe event or a non-nil value; distinct = distinct source text. Phase hist (process-history independence): complementary sets of programs that drive one interpreter facility with different shapes (plain/variadic, named/anonymous script functions of every arity 0..7 and as Go callbacks; typed slice/map literals, channels and make() over every basic element type; make(type) binding one name to different types; struct types with different field lists; modules of one name with different contents; imports of different packages in different orders; host calls with different argument shapes; the feature programs above; PRNG-generated programs) — a case draws 2..6 members (one group, mixed, or with a generated program), orders them by the PRNG, sometimes repeats the first at the end, and runs them one after the other in the worker process, whose history also holds all earlier cases of its chunk and the canaries; each member's observation must equal its SOLO observation = the program run as the first and only program of a fresh child process. Phase iso (environments never observe each other's bindings): (modcopy) a script binds a module or an imported package to further names (n = m, var n = m, n, k = m, m, through a function result, a list element, a copy of a copy), changes ONE side (member assignment, module functions that set or delete with and without the global flag, also from a nested module, top-level assignment/definition/deletion/var/type definition/function and module definition) and records the view of every side before and after: the views of all other sides must not change; (envcopy) a template environment one or two scopes deep is copied with Env.DeepCopy / Env.Copy (also a copy of a copy), 1..4 changes are applied to one of them through the env API (Define, Set, Delete, DeleteGlobal, DefineType, DefineGlobal, DefineGlobalType, NewModule) or by a script handed to vm.Execute with it, and after every change the views of all OTHER environments (env API Get/Type of every watched name, and a script reading the same names) must be unchanged; (stamp) 2..4 environments stamped from one template (all before the first run, or one by one) run the same source of reads and binding changes: equal value and error text in every run, template unchanged. Phase conc additionally runs stamp cases with 6 environments at the same time in the race build. Canaries after each case also cover: script functions of every arity 0..7 plain and variadic, Env.Copy/DeepCopy isolation, module-copy isolation.",
+				Rule:  "each program (hand-written feature programs aimed at per-node runtime data: named/anonymous calls, defer, ++/--, small-int and large-int arithmetic, every literal kind, maps that grow while they are ranged over, import with reassignment of imported members, modules, typed literals, make(type); PRNG-generated programs of all profiles; the repository's own goroutine-free scripts) is parsed ONCE; phase seq: the tree is dumped by reflection, run 3 times (feature programs 8 times) in fresh equal environments and dumped after each run; phase conc (race build): a solo run of a separately parsed tree is the reference, then 8 goroutines run the ONE shared tree at the same time on 8 fresh environments behind a barrier. Required: dumps byte-identical, every run's value/error text/probe trace equal to the solo run, canaries on the shared ++ literal, the small-int cache, the package tables and import isolation after each case, no race report. Non-trivial = parsed and produced at least one probe event or a non-nil value; distinct = distinct source text. Phase hist (process-history independence): complementary sets of programs that drive one interpreter facility with different shapes (plain/variadic, named/anonymous script functions of every arity 0..7 and as Go callbacks; typed slice/map literals, channels and make() over every basic element type; make(type) binding one name to different types; struct types with different field lists; modules of one name with different contents; imports of different packages in different orders; host calls with different argument shapes; the feature programs above; PRNG-generated programs) — a case draws 2..6 members (one group, mixed, or with a generated program), orders them by the PRNG, sometimes repeats the first at the end, and runs them one after the other in the worker process, whose history also holds all earlier cases of its chunk and the canaries; each member's observation must equal its SOLO observation = the program run as the first and only program of a fresh child process. Phase iso (environments never observe each other's bindings): (modcopy) a script binds a module or an imported package to further names (n = m, var n = m, n, k = m, m, through a function result, a list element, a copy of a copy), changes ONE side (member assignment, module functions that set or delete with and without the global flag, also from a nested module, top-level assignment/definition/deletion/var/type definition/function and module definition) and records the view of every side before and after: the views of all other sides must not change; (envcopy) a template environment one or two scopes deep is copied with Env.DeepCopy / Env.Copy (also a copy of a copy), 1..4 changes are applied to one of them through the env API (Define, Set, Delete, DeleteGlobal, DefineType, DefineGlobal, DefineGlobalType, NewModule) or by a script handed to vm.Execute with it, and after every change the views of all OTHER environments (env API Get/Type of every watched name, and a script reading the same names) must be unchanged; (stamp) 2..4 environments stamped from one template (all before the first run, or one by one) run the same source of reads and binding changes: equal value and error text in every run, template unchanged. Phase conc additionally runs stamp cases with 6 environments at the same time in the race build. Canaries after each case also cover: script functions of every arity 0..7 plain and variadic, Env.Copy/DeepCopy isolation, module-copy isolation. Round 4 (c14_env.go): a program may carry a first-line comment `# env: ...` after which the host prepares the otherwise standard environment (env.DefineType of the names T, U and hm.T — in a host-made module — with one of 11 Go types, host float32 values, a meet() function). (a) Feature programs: == / != / in / switch between a float32 (from []float32, [][]float32, map[string]float32 literals and host float32 values) and an ordinary script float, in loops; script functions that end with an error 100..600 times per run (throw, index error, undefined name; through 1..15 nested named, anonymous and module functions and through Go callbacks; always caught further out); recursion 2500 deep (named, closure, mutually recursive) that calls meet() at the bottom — in phase conc the first meet() of each of the 8 runs waits until all runs have called it or have ended, so the deep runs really overlap; error exits followed by a recursion 4000 deep in one program (run k vs run 1; phases seq and hist only, like the error-exit programs). (b) envmix cases (every 37th case of seq and every 60th of the shared-tree part of conc): ONE tree of a text whose struct/slice/map/chan/pointer type expressions name T, U, hm.T is run 4..6 times one after the other (seq) or by 8 goroutines at once (conc) in environments drawn from 2..4 DIFFERENT type bindings; each run must equal the same text run alone in an environment of its kind in a fresh child process. (c) hist: every case with index%10==3 takes one such text under 2..4 different type bindings (the child prepares its environment after the same first line), sometimes with a script that binds the names itself (make(type T, v), module hm { make(type T, v) }; also rebinding T between two evaluations of one type expression); every case with index%10==6 draws from the call-depth group (the error-exit programs and recursions 4000/9000 deep: named, closure, mutually recursive, module function, twice in a row), so that each worker process runs deep recursions after thousands of error exits; both groups are in the ordinary draws too.",
 				Assumptions: []string{"corpus scripts that use import, goroutines, channels, map iteration, keys(), printing or time are outside the repeatability domain and are skipped", "a run cut by the execution watchdog is inconclusive, never compared",
 					"hist: the solo reference is taken in a child process of the same worker binary; a child that fails to deliver an observation makes the member inconclusive",
 					"iso compares bindings only: values reachable from both sides by reference (lists, maps, nested modules — shared by Copy/DeepCopy and by module assignment like any other value) are never mutated in place; a function is a closure over the environment it was defined in, so calling a template's or module's function through a copy counts as a change of the ORIGINAL; under Env.Copy the parent scopes stay shared by contract, so only the copied scope is changed",
-					"a script map converted to a typed map whose keys collide after conversion is nondeterministic on the unchanged tree (convertMap, reported in C14-genuine.md); such programs are written but held back by c14PendingFix_convertMapCollision"},
+					"a script map converted to a typed map whose keys collide after conversion is nondeterministic on the unchanged tree (convertMap, reported in C14-genuine.md); such programs are written but held back by c14PendingFix_convertMapCollision",
+					"nothing is assumed about how deep a recursion may nest or what a comparison of a float32 with a float64 yields: such a run is only compared with the same program run alone (solo run, run 1, or fresh child process)",
+					"meet() only shapes the schedule of the concurrent runs (a bounded wait, released when every run has arrived or ended); no verdict depends on it",
+					"a channel operation that is ready in the statement in which a host function has cancelled the run's context has a random outcome on the unchanged tree (reflect.Select, reported in C14-r4-genuine.md): such programs are written but held back by c14PendingFix_cancelSelectRace",
+					"(*env.Env).Addr of a host-bound nil hands out the process-wide nil cell on the unchanged tree (reported in C14-r4-genuine.md): the env-API change api-Addr-store is written but held back by c14PendingFix_addrNilCell"},
 				Phases: []fw.Phase{
 					{Name: "seq", Cases: nSeq, Chunk: 100, TimeoutS: 900},
 					{Name: "hist", Cases: nHist, Chunk: 50, TimeoutS: 900},
@@ -310,6 +349,10 @@ func init() {
 				// environments stamped from one template, run at the same time (race build)
 				c14IsoStamp(c, true)
 				return
+			case c14IsEnvMix(c):
+				// one tree, environments that bind type names differently (c14_env.go)
+				c14RunEnvMix(c)
+				return
 			}
 			src, kind, wd, ok := c14Program(c, c.Phase == "seq")
 			if !ok {
@@ -323,6 +366,7 @@ func init() {
 				return
 			}
 			input := map[string]string{"source": src, "kind": kind}
+			spec := c14SpecOf(src)
 			dump0 := astx.Dump(tree, c14DumpOpts)
 			checkDump := func(when string) bool {
 				if d := astx.Dump(tree, c14DumpOpts); d != dump0 {
@@ -339,7 +383,7 @@ func init() {
 					reruns = 8
 				}
 				for i := 0; i < reruns; i++ {
-					o := c14Observe(realrun.RunTreeWatchdog(tree, wd, true))
+					o := c14Observe(c14RunTree(tree, spec, wd, true, nil))
 					if o.timeout {
 						c.Excluded("watchdog")
 						return
@@ -357,7 +401,7 @@ func init() {
 				}
 			} else {
 				solo, _, _ := ank.Parse(src)
-				ref = c14Observe(realrun.RunTreeWatchdog(solo, wd, true))
+				ref = c14Observe(c14RunTree(solo, spec, wd, true, nil))
 				if ref.timeout {
 					c.Excluded("watchdog")
 					return
@@ -366,12 +410,20 @@ func init() {
 				obs := make([]c14Obs, n)
 				var wg sync.WaitGroup
 				start := make(chan struct{})
+				// programs that call meet() hold every run at that point until all runs are there (or over)
+				bar := c14NewBarrier(n)
+				wdc := 4 * time.Second
+				if spec != "" {
+					// runs that wait for each other in meet() need room for the slowest of them
+					wdc = 20 * time.Second
+				}
 				for i := 0; i < n; i++ {
 					wg.Add(1)
 					go func(i int) {
 						defer wg.Done()
+						defer bar.arrive(i)
 						<-start
-						obs[i] = c14Observe(realrun.RunTreeWatchdog(tree, 4*time.Second, false))
+						obs[i] = c14Observe(c14RunTree(tree, spec, wdc, false, bar.meetFor(i)))
 					}(i)
 				}
 				close(start)
